@@ -22,24 +22,18 @@ import (
 )
 
 type c12Front struct {
-	iface *Store
-	web   *httptest.Server
-	sock  string
-	env   *c11Env
+	iface    *Store
+	web      *httptest.Server
+	sock     string
+	env      *c11Env
+	stopSasl func()
 }
 
 func c12Fronts(iface *Store, dir string) *c12Front {
 	hd, _ := newWebHandler(iface)
 	f := &c12Front{iface: iface, web: httptest.NewServer(hd), sock: filepath.Join(dir, "c12.sock")}
-	os.Remove(f.sock)                   //nolint:errcheck
-	go runSaslAuthSocket(f.sock, iface) //nolint:errcheck
-	for i := 0; i < 400; i++ {
-		if _, err := os.Stat(f.sock); err == nil {
-			break
-		}
-		time.Sleep(2 * time.Millisecond)
-	}
-	f.env = &c11Env{iface: iface, web: f.web.URL, sock: f.sock, httpc: &http.Client{}}
+	f.stopSasl = ovlSasl(f.sock, iface)
+	f.env = &c11Env{iface: iface, web: f.web.URL, sock: f.sock, httpc: &http.Client{Transport: &http.Transport{MaxIdleConnsPerHost: 4}}}
 	return f
 }
 
@@ -51,7 +45,11 @@ func (f *c12Front) login(via, user, pw string) bool {
 	return f.env.auth(via, user, pw).OK
 }
 
-func (f *c12Front) close() { go f.web.Close() }
+func (f *c12Front) close() {
+	f.stopSasl()
+	f.env.httpc.CloseIdleConnections()
+	go f.web.Close()
+}
 
 var outageHits int32
 
